@@ -106,7 +106,7 @@ except BaseException as ex:
 
 
 def run_case(files):
-    p = subprocess.run([sys.executable, "-c", DRIVER, json.dumps(files)], capture_output=True, text=True, timeout=120, cwd=tempfile.gettempdir())
+    p = subprocess.run([sys.executable, "-c", DRIVER, json.dumps(files)], capture_output=True, text=True, timeout=600, cwd=tempfile.gettempdir())
     for line in p.stdout.splitlines():
         if line.startswith("RESULT"):
             return json.loads(line[6:])
